@@ -133,8 +133,42 @@ def cmd_run(sid, checks):
     return 0
 
 
+def cmd_report():
+    """seeded/README.md: one line per seeded change - what it touches, which checks caught it and how"""
+    import re
+    rows = []
+    for sid in sorted(os.listdir(SEEDED)):
+        d = os.path.join(SEEDED, sid)
+        mp = os.path.join(d, "meta.json")
+        if not os.path.exists(mp):
+            continue
+        m = json.load(open(mp))
+        patch = open(os.path.join(d, "patch.diff")).read()
+        files = sorted(set(re.findall(r"^\+\+\+ b/(\S+)", patch, re.M)))
+        funcs = sorted(set(h.strip() for h in re.findall(r"^@@.*@@ (.*)$", patch, re.M)))[:3]
+        tgt = m.get("breaks", sid.split("-")[0])
+        tr = (m.get("checks") or {}).get(tgt) or {}
+        how = "not run" if not tr else ("missed" if not tr.get("violation") else
+                                        ("correspondence/obligation broke, no failing input" if tr.get("no_failing_input") else "concrete failing input"))
+        others = [c for c in (m.get("matrix_caught_by") or []) if c != tgt]
+        src = "reverse of fix commit" if sid.startswith("D") else "independent sub-agent"
+        rows.append("| %s | %s | %s | %s | %s | %s | %s |" % (sid, tgt, src, ", ".join(f.replace("productmd/", "") for f in files),
+                                                         "; ".join(funcs)[:90], how, " ".join(others) or "-"))
+    out = ["# Seeded changes", "",
+           "Each directory holds `patch.diff` (applies to /repo HEAD, keeps the 90 tests green), `demo.py` (exits 0 without / 1 with the change),",
+           "`notes.md` (the author's description) and `meta.json` (validation, results of the checks).  `harness/seeded.py run <id> [checks]`",
+           "applies a patch to /repo, runs the checks and reverts; `matrix` runs every check against every change.", "",
+           "| id | breaks | source | file | where | target check | other checks that also fired (matrix) |", "|---|---|---|---|---|---|---|"] + rows
+    with open(os.path.join(SEEDED, "README.md"), "w") as f:
+        f.write("\n".join(out) + "\n")
+    print("%d seeded changes" % len(rows))
+    return 0
+
+
 def main():
     a = sys.argv[1:]
+    if a[0] == "report":
+        return cmd_report()
     if a[0] == "import":
         return cmd_import(*a[1:5])
     if a[0] == "run":
